@@ -214,7 +214,7 @@ Qed.
 
 Lemma Keep_catch T g i now w : Keep w (catch T g i now w).
 Proof.
-  unfold catch. eapply Keep_trans; [|apply Keep_pull].
+  unfold catch, caught. eapply Keep_trans; [|apply Keep_pull].
   destruct (negb (ok w)); [|apply Keep_refl].
   eapply Keep_trans; [apply Keep_set_err|apply Keep_write_err].
 Qed.
@@ -638,7 +638,7 @@ Section ROOT.
     { unfold relink. destruct (_ && _); auto. apply root_cache_notify_graphs; auto using root_cache_upd_node. }
     assert (R1 := Hev (c_child (ncfg_at T g i)) (now_of g w) _ (child_not_root _ _ Hn) R0).
     destruct (c_kind _ =? 1); auto.
-    unfold catch. apply root_cache_pull.
+    unfold catch, caught. apply root_cache_pull.
     destruct (negb (ok _)); auto. apply root_cache_write_err; auto.
   Qed.
 
@@ -780,3 +780,391 @@ Section RUN.
     run_inv (run_sim T beh rr start end_ fuel).
   Proof. intros Hs He. unfold run_sim. apply run_loop_inv; auto. apply start_run_inv; auto. Qed.
 End RUN.
+
+(* ------------------------------------------------------------------ 6. captured errors *)
+Lemma nth_update_proj {A B} (pr : A -> B) i i' h (l : list A) d :
+  (forall x, pr (h x) = pr x) -> pr (nth i (update i' h l) d) = pr (nth i l d).
+Proof.
+  intros H. revert i i'. induction l as [|x r IH]; intros [|i] [|i']; simpl; auto.
+Qed.
+
+(* the error ports of all nodes *)
+Definition errp (n : nst) : option Z * Z := (n_err n, n_elmt n).
+Definition ErrEq (w w' : world) : Prop := forall g i, errp (node_at g i w') = errp (node_at g i w).
+
+Lemma ErrEq_refl w : ErrEq w w. Proof. intros g i; reflexivity. Qed.
+Lemma ErrEq_trans a b c : ErrEq a b -> ErrEq b c -> ErrEq a c.
+Proof. intros H1 H2 g i. rewrite H2, H1; auto. Qed.
+
+Lemma ErrEq_upd_g_nodes g f w : (forall s, g_nodes (f s) = g_nodes s) -> ErrEq w (upd_g g f w).
+Proof. intros H g' i. unfold node_at. rewrite (gat_upd_proj g_nodes); auto. Qed.
+
+Lemma ErrEq_upd_node g i h w : (forall n, errp (h n) = errp n) -> ErrEq w (upd_node g i h w).
+Proof.
+  intros H g' i'. unfold node_at, upd_node.
+  destruct (Nat.eq_dec g g') as [->|Hn].
+  - destruct (lt_dec g' (length (w_gs w))).
+    + rewrite gat_upd_same; auto. simpl. apply (nth_update_proj errp); auto.
+    + unfold gat, upd_g; simpl. rewrite update_oob by lia. reflexivity.
+  - rewrite gat_upd_other; auto.
+Qed.
+
+Lemma ErrEq_emit l w : ErrEq w (emit l w). Proof. intros g i; reflexivity. Qed.
+Lemma ErrEq_set_err e w : ErrEq w (set_err e w). Proof. intros g i; reflexivity. Qed.
+
+Lemma ErrEq_sched_local g i when w : ErrEq w (sched_local g i when w).
+Proof.
+  unfold sched_local; cbv zeta. destruct (when <? g_now (gat g w)); [apply ErrEq_set_err|].
+  destruct (_ || _); [|apply ErrEq_refl]. apply ErrEq_upd_g_nodes; reflexivity.
+Qed.
+
+Lemma ErrEq_sched_at d T : forall g i when w, ErrEq w (sched_at d T g i when w).
+Proof.
+  induction d as [|d IH]; intros g i when w; simpl.
+  - destruct (gc_parent _) as [[pg pn]|]; [apply ErrEq_set_err|apply ErrEq_sched_local].
+  - destruct (gc_parent _) as [[pg pn]|]; [|apply ErrEq_sched_local].
+    assert (K1 := ErrEq_sched_local g i (Z.max when (now_of pg w)) w).
+    destruct (negb (ok _)); auto.
+    match goal with |- ErrEq w (if ?b then sched_at d T pg pn ?wh ?w2 else _) => assert (K2 : ErrEq w w2) end.
+    { destruct (_ && _); auto. eapply ErrEq_trans; eauto. apply ErrEq_upd_g_nodes; reflexivity. }
+    destruct (g_started _ && negb _); auto. eapply ErrEq_trans; eauto.
+Qed.
+
+Lemma ErrEq_notify_graphs T sub now : forall gs g w, ErrEq w (notify_graphs T sub now gs g w).
+Proof.
+  induction gs as [|gc r IH]; intros g w; simpl; [apply ErrEq_refl|].
+  eapply ErrEq_trans; [|apply IH].
+  generalize 0%nat. revert w. induction (gc_nodes gc) as [|c cs IHc]; intros w j; simpl; [apply ErrEq_refl|].
+  eapply ErrEq_trans; [|apply IHc]. destruct (_ && _); [apply ErrEq_sched_at|apply ErrEq_refl].
+Qed.
+
+Lemma ErrEq_opt T g i o w : ErrEq w (opt_schedule T g i o w).
+Proof. destruct o; simpl; [apply ErrEq_sched_at|apply ErrEq_refl]. Qed.
+
+Lemma ErrEq_do_op T g i st opi o w : ErrEq w (do_op T g i st opi o w).
+Proof.
+  unfold do_op. destruct (negb (ok w)); [apply ErrEq_refl|].
+  destruct o; try apply ErrEq_refl; try apply ErrEq_set_err; try apply ErrEq_sched_at.
+  - destruct (c_sched _); [|apply ErrEq_refl]. destruct (schedule _ _ _ _ _) as [s' push].
+    match goal with |- ErrEq w (if ok ?w1 then _ else _) => assert (K : ErrEq w w1) end.
+    { (eapply ErrEq_trans; [|apply ErrEq_opt]); apply ErrEq_upd_node; reflexivity. }
+    destruct (ok _); auto.
+  - destruct (c_sched _); [|apply ErrEq_refl]. (eapply ErrEq_trans; [|apply ErrEq_emit]); apply ErrEq_upd_node; reflexivity.
+  - destruct (c_sched _); [|apply ErrEq_refl]. (eapply ErrEq_trans; [|apply ErrEq_emit]); apply ErrEq_upd_node; reflexivity.
+  - destruct (c_sched _); [|apply ErrEq_refl]. destruct (pop_tag _ _ _).
+    (eapply ErrEq_trans; [|apply ErrEq_emit]); apply ErrEq_upd_node; reflexivity.
+  - destruct (c_sched _); [|apply ErrEq_refl]. (eapply ErrEq_trans; [|apply ErrEq_emit]); apply ErrEq_upd_node; reflexivity.
+  - destruct (_ && _); [|apply ErrEq_refl].
+    eapply ErrEq_trans; [|apply ErrEq_emit]. eapply ErrEq_trans; [|apply ErrEq_notify_graphs].
+    apply ErrEq_upd_node; reflexivity.
+  - destruct (_ && _); [apply ErrEq_sched_at|apply ErrEq_refl].
+Qed.
+
+Lemma ErrEq_do_ops T g i st : forall os opi w, ErrEq w (do_ops T g i st opi os w).
+Proof.
+  induction os as [|o r IH]; intros opi w; simpl; [apply ErrEq_refl|].
+  eapply ErrEq_trans; [apply ErrEq_do_op|apply IH].
+Qed.
+
+Lemma ErrEq_run_user T beh g i w : ErrEq w (run_user T beh g i w).
+Proof.
+  unfold run_user. eapply ErrEq_trans; [|apply ErrEq_do_ops].
+  (eapply ErrEq_trans; [|apply ErrEq_emit]); apply ErrEq_upd_node; reflexivity.
+Qed.
+
+Lemma ErrEq_rearm T g i sn now w : ErrEq w (rearm T g i sn now w).
+Proof.
+  unfold rearm. destruct (c_sched _); [|apply ErrEq_refl]. destruct sn.
+  - destruct (advance _ _). (eapply ErrEq_trans; [|apply ErrEq_opt]); apply ErrEq_upd_node; reflexivity.
+  - destruct (is_scheduled _); [apply ErrEq_sched_at|apply ErrEq_refl].
+Qed.
+
+(* writing the error output: exactly that port changes, and the write itself cannot fail *)
+Lemma write_err_port T g i code now w :
+  (g < length (w_gs w))%nat -> (i < length (g_nodes (gat g w)))%nat ->
+  errp (node_at g i (write_err T g i code now w)) = (Some code, now).
+Proof.
+  intros Lg Li. unfold write_err, notify. rewrite (ErrEq_notify_graphs T _ now T 0 _ g i).
+  unfold node_at, upd_node. rewrite gat_upd_same; auto. simpl.
+  rewrite nth_update_same; auto.
+Qed.
+
+Lemma write_err_others T g i code now w g' i' :
+  (g', i') <> (g, i) -> errp (node_at g' i' (write_err T g i code now w)) = errp (node_at g' i' w).
+Proof.
+  intros Hne. unfold write_err, notify. rewrite (ErrEq_notify_graphs T _ now T 0 _ g' i').
+  unfold node_at, upd_node.
+  destruct (Nat.eq_dec g g') as [->|Hn]; [|rewrite gat_upd_other; auto].
+  destruct (lt_dec g' (length (w_gs w))).
+  - rewrite gat_upd_same; auto. simpl. rewrite nth_update_other; [auto|congruence].
+  - unfold gat, upd_g; simpl. rewrite update_oob by lia. reflexivity.
+Qed.
+
+Section CAPTURE.
+  Variable T : tcfg.
+  Variable beh : behaviour.
+  Hypothesis HP : parents_lt T.
+
+  (* node-level capture (NodeTypeMetaData.captures_errors): an exception [e] raised by user code yields
+     exactly one tick of that node's error output, at [now], carrying [e]; the error is cleared (the
+     run continues) and no other error output changes *)
+  Lemma capture_one_tick g i now w e :
+    c_kind (ncfg_at T g i) = 3 -> w_err w = e -> e <> 0 ->
+    (g < length (w_gs w))%nat -> (i < length (g_nodes (gat g w)))%nat ->
+    let w' := capture T g i now w in
+    w_err w' = 0
+    /\ errp (node_at g i w') = (Some e, now)
+    /\ forall g' i', (g', i') <> (g, i) -> errp (node_at g' i' w') = errp (node_at g' i' w).
+  Proof.
+    intros Hk He Hne Lg Li. unfold capture. rewrite Hk. unfold ok. rewrite He.
+    replace (e =? 0) with false by lia. simpl.
+    repeat split.
+    - rewrite write_err_err; auto.
+    - apply write_err_port; auto.
+    - intros g' i' Hd. rewrite write_err_others; auto.
+  Qed.
+
+  (* no exception: no error tick *)
+  Lemma capture_none g i now w : w_err w = 0 -> capture T g i now w = w.
+  Proof. intros H. unfold capture, ok. rewrite H. simpl. rewrite andb_false_r. reflexivity. Qed.
+
+  (* a node without capture lets the exception through unchanged *)
+  Lemma capture_off g i now w : c_kind (ncfg_at T g i) <> 3 -> capture T g i now w = w.
+  Proof. intros H. unfold capture. replace (c_kind (ncfg_at T g i) =? 3) with false by lia. reflexivity. Qed.
+
+  (* a whole evaluation of a capturing node whose user code throws [e]: one tick, same cycle, the
+     scheduler re-arm still runs on the captured state *)
+  Lemma eval_plain_captured g i w e :
+    c_kind (ncfg_at T g i) = 3 -> n_started (node_at g i w) = true ->
+    (match c_ins (ncfg_at T g i) with [] => true | _ => ready (ncfg_at T g i) (now_of g w) w end) = true ->
+    w_err (run_user T beh g i w) = e -> e <> 0 ->
+    (g < length (w_gs w))%nat -> (i < length (g_nodes (gat g w)))%nat ->
+    let now := now_of g w in
+    let w1 := capture T g i now (run_user T beh g i w) in
+    eval_plain T beh g i w
+      = rearm T g i (c_sched (ncfg_at T g i) && is_scheduled_now now (n_sch (node_at g i w))) now w1
+    /\ w_err w1 = 0
+    /\ errp (node_at g i (eval_plain T beh g i w)) = (Some e, now).
+  Proof.
+    intros Hk Hs Hr He Hne Lg Li now w1.
+    assert (K := Keep_run_user T beh g i w).
+    destruct (capture_one_tick g i now (run_user T beh g i w) e Hk He Hne) as (E0 & E1 & _).
+    { destruct K as [K _]; lia. }
+    { destruct K as [_ K]. rewrite (kg_nnodes _ _ (K g)). auto. }
+    assert (Ee : eval_plain T beh g i w = rearm T g i (c_sched (ncfg_at T g i) && is_scheduled_now now (n_sch (node_at g i w))) now w1).
+    { unfold eval_plain. rewrite Hs. cbn [negb]. rewrite Hr. unfold ok. subst now. rewrite E0. reflexivity. }
+    repeat split; auto.
+    rewrite Ee. rewrite (ErrEq_rearm T g i _ now w1 g i). exact E1.
+  Qed.
+
+  (* ... and when the user code does not throw, no error output changes during the evaluation *)
+  Lemma eval_plain_no_tick g i w :
+    w_err (run_user T beh g i w) = 0 -> ErrEq w (eval_plain T beh g i w).
+  Proof.
+    intros H. unfold eval_plain. destruct (negb (n_started _)); [apply ErrEq_refl|].
+    match goal with |- ErrEq w (if negb (ok ?w1) then _ else _) => assert (K : ErrEq w w1) end.
+    { destruct (match c_ins _ with [] => true | _ => _ end); [|apply ErrEq_refl].
+      rewrite capture_none; auto. apply ErrEq_run_user. }
+    destruct (negb (ok _)); auto. eapply ErrEq_trans; [exact K|apply ErrEq_rearm].
+  Qed.
+
+  (* try_except: the child's exception [e] becomes one tick of the `exception` field at [now]; it is
+     cleared (the run continues); no other error output changes *)
+  Lemma caught_one_tick g i now w e :
+    w_err w = e -> e <> 0 ->
+    (g < length (w_gs w))%nat -> (i < length (g_nodes (gat g w)))%nat ->
+    let w' := caught T g i now w in
+    w_err w' = 0
+    /\ errp (node_at g i w') = (Some e, now)
+    /\ forall g' i', (g', i') <> (g, i) -> errp (node_at g' i' w') = errp (node_at g' i' w).
+  Proof.
+    intros He Hne Lg Li. unfold caught, ok. rewrite He. replace (e =? 0) with false by lia. simpl.
+    repeat split.
+    - rewrite write_err_err; auto.
+    - apply write_err_port; auto.
+    - intros g' i' Hd. rewrite write_err_others; auto.
+  Qed.
+
+  Lemma caught_none g i now w : w_err w = 0 -> caught T g i now w = w.
+  Proof. intros H. unfold caught, ok. rewrite H. reflexivity. Qed.
+
+  (* the pull after the catch is ordinary scheduling: it touches no error output, and it cannot fail
+     as long as the child's cached next time is not behind the parent's clock *)
+  Lemma pull_err g i c w : now_of g w <= g_nst (gat c w) -> w_err (pull T g i c w) = w_err w.
+  Proof. intros H. unfold pull. destruct (_ =? _); auto. apply sched_at_top_err; auto. Qed.
+
+  Lemma ErrEq_pull g i c w : ErrEq w (pull T g i c w).
+  Proof. unfold pull. destruct (_ =? _); [apply ErrEq_refl|apply ErrEq_sched_at]. Qed.
+End CAPTURE.
+
+(* ------------------------------------------------------------------ 7. the resuming rule *)
+Lemma update_update {A} n f h (l : list A) : update n f (update n h l) = update n (fun x => f (h x)) l.
+Proof. revert n; induction l as [|x r IH]; intros [|n]; simpl; auto. f_equal; apply IH. Qed.
+Lemma update_ext {A} n f h (l : list A) : (forall x, f x = h x) -> update n f l = update n h l.
+Proof. intros H. revert n; induction l as [|x r IH]; intros [|n]; simpl; auto; f_equal; auto. Qed.
+Lemma upd_g_upd_g g f h w : upd_g g f (upd_g g h w) = upd_g g (fun s => f (h s)) w.
+Proof. unfold upd_g; simpl. f_equal. apply update_update. Qed.
+Lemma upd_g_ext g f h w : (forall s, f s = h s) -> upd_g g f w = upd_g g h w.
+Proof. intros H. unfold upd_g. f_equal. apply update_ext; auto. Qed.
+
+Lemma failed_in_range g w : g_failed (gat g w) = true -> (g < length (w_gs w))%nat.
+Proof.
+  intros H. destruct (lt_dec g (length (w_gs w))); auto.
+  unfold gat in H. rewrite nth_overflow in H by lia. discriminate.
+Qed.
+
+(* the cycle after a failed one does not depend on where the cursor was left: it is the same cycle as
+   from cursor 0 (= after a completed cycle).  Repaired rule only. *)
+Lemma eval_graph_after_failure f T beh g t w c :
+  g_failed (gat g w) = true ->
+  eval_graph (S f) T beh true g t (upd_g g (g_set_cursor c) w) = eval_graph (S f) T beh true g t w.
+Proof.
+  intros Hf. assert (L := failed_in_range _ _ Hf).
+  cbn [eval_graph].
+  rewrite (gat_upd_same g (g_set_cursor c) w L).
+  change (g_failed (g_set_cursor c (gat g w))) with (g_failed (gat g w)).
+  rewrite Hf. cbn [negb andb].
+  rewrite !upd_g_upd_g.
+  assert (E : upd_g g (fun s => g_set_cursor 0 (g_set_nst MAX_DT
+                 (g_set_flags (g_started (g_set_cursor c s)) true false (g_set_now t (g_set_cursor c s))))) w
+            = upd_g g (fun s => g_set_cursor 0 (g_set_nst MAX_DT (g_set_flags (g_started s) true false (g_set_now t s)))) w)
+    by (apply upd_g_ext; intros s; reflexivity).
+  rewrite E. reflexivity.
+Qed.
+
+(* under the rule before the repair the same cycle resumes at the stale cursor: it is a different cycle *)
+Lemma old_rule_resumes f T beh g t w :
+  g_failed (gat g w) = true -> g_cursor (gat g w) <> 0 -> g_cursor (gat g w) <> -1 ->
+  eval_graph (S f) T beh false g t w =
+  (let w0 := upd_g g (fun s => g_set_flags (g_started s) true false (g_set_now t s)) w in
+   let n := length (gc_nodes (gcfg_at T g)) in
+   let st := Z.to_nat (g_cursor (gat g w0)) in
+   let w2 := scan T beh (eval_graph f T beh false) g st (n - st) w0 in
+   if negb (ok w2) then upd_g g (fun s => g_set_flags (g_started s) false true s) w2
+   else
+     let w3 := upd_g g (g_set_cursor 0) w2 in
+     let w4 := match gc_parent (gcfg_at T g) with
+               | None => w3
+               | Some (pg, pn) => let nx := g_nst (gat g w3) in
+                                  if nx <? MAX_DT then sched_at (length T) T pg pn nx w3 else w3
+               end in
+     upd_g g (fun s => g_set_flags (g_started s) false (g_failed s) s) w4).
+Proof.
+  intros Hf H0 H1. cbn [eval_graph]. cbv zeta.
+  replace (g_cursor (gat g w) =? 0) with false by lia.
+  replace (g_cursor (gat g w) =? -1) with false by lia. reflexivity.
+Qed.
+
+(* ------------------------------------------------------------------ 4b. a nested node evaluates its child at its own graph's time, and only there *)
+Lemma eval_nested_time T ev ev' g i w :
+  (forall w', ev (c_child (ncfg_at T g i)) (now_of g w) w' = ev' (c_child (ncfg_at T g i)) (now_of g w) w') ->
+  eval_nested T ev g i w = eval_nested T ev' g i w.
+Proof. intros H. unfold eval_nested. rewrite H. reflexivity. Qed.
+
+Lemma eval_graph_clock f T beh rr g t w :
+  (g < length (w_gs w))%nat -> ok (eval_graph (S f) T beh rr g t w) = true \/ True ->
+  now_of g (upd_g g (fun s => g_set_flags (g_started s) true false (g_set_now t s)) w) = t.
+Proof. intros L _. apply now_upd_same; auto. Qed.
+
+(* ------------------------------------------------------------------ 5. push and pull: the parent is due no later *)
+Definition clamp (T : tcfg) (g : nat) (when : Z) (w : world) : Z :=
+  match gc_parent (gcfg_at T g) with None => when | Some (pg, _) => Z.max when (now_of pg w) end.
+Definition idle (g : nat) (w : world) : bool := g_started (gat g w) && negb (g_evaluating (gat g w)).
+
+Lemma sched_local_slot_le g i when w :
+  (g < length (w_gs w))%nat -> (i < length (g_slots (gat g w)))%nat -> g_now (gat g w) <= when ->
+  slot_at i (gat g (sched_local g i when w)) <= when.
+Proof.
+  intros Lg Li Hn. unfold sched_local; cbv zeta.
+  destruct (when <? g_now (gat g w)) eqn:E0; [lia|].
+  destruct ((slot_at i (gat g w) <=? g_now (gat g w)) || (when <? slot_at i (gat g w))) eqn:E.
+  - rewrite gat_upd_same; auto. unfold slot_at, g_set_sched, set_nth; simpl. rewrite nth_update_same; auto. lia.
+  - lia.
+Qed.
+
+(* a (nested) schedule on graph g touches only g and graphs with smaller ids (its ancestors) *)
+Lemma sched_at_above T (HT : parents_lt T) d : forall g i when w g', (g < g')%nat ->
+  gat g' (sched_at d T g i when w) = gat g' w.
+Proof.
+  assert (SL : forall g i when w g', g <> g' -> gat g' (sched_local g i when w) = gat g' w).
+  { intros g i when w g' Hn. unfold sched_local; cbv zeta. destruct (when <? _); auto.
+    destruct (_ || _); auto. apply gat_upd_other; auto. }
+  induction d as [|d IH]; intros g i when w g' Hg; simpl.
+  - destruct (gc_parent _) as [[pg pn]|]; auto. apply SL; lia.
+  - destruct (gc_parent (gcfg_at T g)) as [[pg pn]|] eqn:Hp; [|apply SL; lia].
+    assert (E1 := SL g i (Z.max when (now_of pg w)) w g' ltac:(lia)).
+    destruct (negb (ok _)); auto.
+    match goal with |- gat g' (if ?b then sched_at d T pg pn ?wh ?w2 else _) = _ => assert (E2 : gat g' w2 = gat g' w) end.
+    { destruct (_ && _); auto. rewrite gat_upd_other; auto; lia. }
+    destruct (g_started _ && negb _); auto. rewrite IH; auto. specialize (HT _ _ _ Hp). lia.
+Qed.
+
+(* after a schedule request the node's own slot is no later than the request (clamped to the parent's clock) *)
+Lemma sched_at_own_slot T (HT : parents_lt T) : forall d g i when w,
+  (g < d)%nat \/ gc_parent (gcfg_at T g) = None ->
+  (g < length (w_gs w))%nat -> (i < length (g_slots (gat g w)))%nat -> now_of g w <= when ->
+  slot_at i (gat g (sched_at d T g i when w)) <= clamp T g when w.
+Proof.
+  induction d as [|d IH]; intros g i when w Hd Lg Li Hn; unfold clamp; simpl.
+  - destruct (gc_parent (gcfg_at T g)) as [[pg pn]|] eqn:Hp.
+    + destruct Hd as [Hd|Hd]; [lia|discriminate].
+    + apply sched_local_slot_le; auto.
+  - destruct (gc_parent (gcfg_at T g)) as [[pg pn]|] eqn:Hp; [|apply sched_local_slot_le; auto].
+    set (when' := Z.max when (now_of pg w)).
+    assert (S1 : slot_at i (gat g (sched_local g i when' w)) <= when')
+      by (apply sched_local_slot_le; auto; unfold now_of in *; lia).
+    destruct (negb (ok _)); auto.
+    match goal with |- slot_at i (gat g (if ?b then sched_at d T pg pn ?wh ?w2 else _)) <= _ =>
+      assert (S2 : slot_at i (gat g w2) <= when') end.
+    { destruct (_ && _); auto. unfold slot_at in *. rewrite (gat_upd_proj g_slots); auto. }
+    destruct (g_started _ && negb _); auto.
+    rewrite sched_at_above; auto. apply (HT _ _ _ Hp).
+Qed.
+
+(* THE PUSH: an out-of-band schedule on an idle child (started, not evaluating) arms the owning node in
+   the parent graph no later than that time (clamped to the clocks above).  The push is itself a
+   (nested) schedule on the parent, so the same lemma applies again one level up, to the root. *)
+Lemma push_arms_owner T (HT : parents_lt T) g i when w pg pn :
+  gc_parent (gcfg_at T g) = Some (pg, pn) ->
+  w_err w = 0 -> idle g w = true -> now_of g w <= when ->
+  (pg < length (w_gs w))%nat -> (pn < length (g_slots (gat pg w)))%nat ->
+  slot_at pn (gat pg (sched_at (length T) T g i when w)) <= clamp T pg (Z.max when (now_of pg w)) w.
+Proof.
+  intros Hp Hok Hidle Hn Lpg Lpn.
+  assert (Lg := has_parent_in_range _ _ _ _ Hp).
+  destruct (length T) as [|d] eqn:EL; [lia|]. cbn [sched_at]. rewrite Hp.
+  set (when' := Z.max when (now_of pg w)).
+  set (w1 := sched_local g i when' w).
+  assert (K1 : Keep w w1) by apply Keep_sched_local.
+  assert (E1 : w_err w1 = w_err w) by (apply sched_local_err; unfold now_of in *; lia).
+  unfold ok. rewrite E1, Hok. cbn [Z.eqb negb].
+  assert (Hid : g_started (gat g w1) && negb (g_evaluating (gat g w1)) = true).
+  { destruct K1 as [_ K]. rewrite (kg_started _ _ (K g)), (kg_evaluating _ _ (K g)). exact Hidle. }
+  rewrite Hid. cbn [andb].
+  match goal with |- slot_at pn (gat pg (sched_at d T pg pn when' ?w2)) <= _ => set (w2' := w2) in * end.
+  assert (K2 : Keep w w2').
+  { unfold w2'. destruct (when' <? _); auto. eapply Keep_trans; eauto. apply Keep_upd_g; intros; apply keep_set_nst. }
+  assert (HH := sched_at_own_slot T HT d pg pn when' w2').
+  unfold clamp in *.
+  destruct (gc_parent (gcfg_at T pg)) as [[ppg ppn]|] eqn:Hpp.
+  - rewrite !(Keep_now _ _ _ K2) in HH. apply HH.
+    + left. specialize (HT _ _ _ Hp). lia.
+    + destruct K2 as [K2 _]; lia.
+    + destruct K2 as [_ K2]. rewrite (kg_nslots _ _ (K2 pg)); auto.
+    + unfold when'. lia.
+  - apply HH; auto.
+    + destruct K2 as [K2 _]; lia.
+    + destruct K2 as [_ K2]. rewrite (kg_nslots _ _ (K2 pg)); auto.
+    + rewrite (Keep_now _ _ _ K2). unfold when'. lia.
+Qed.
+
+(* THE PULL: the tail of a completed child cycle arms the owner at the child's cached next time *)
+Lemma pull_arms_owner T (HT : parents_lt T) g i c w :
+  g_nst (gat c w) <> MAX_DT -> now_of g w <= g_nst (gat c w) ->
+  (g < length (w_gs w))%nat -> (i < length (g_slots (gat g w)))%nat ->
+  slot_at i (gat g (pull T g i c w)) <= clamp T g (g_nst (gat c w)) w.
+Proof.
+  intros Hm Hn Lg Li. unfold pull. replace (g_nst (gat c w) =? MAX_DT) with false by lia.
+  apply sched_at_own_slot; auto.
+  destruct (gc_parent (gcfg_at T g)) as [[pg pn]|] eqn:Hp; auto. left. eapply has_parent_in_range; eauto.
+Qed.
